@@ -4,6 +4,7 @@
 //   - the driver delivers Variant.Value (a real model.* / v3 / internalapi value) under Key.Key;
 //   - `calcgraph -export` writes, for TLC, the purely syntactic projection of exactly those values
 //     (labels, selector ASTs from the real parser, rule skeletons, orders, CIDRs as octets, ...).
+//
 // Nothing here computes an expected output of the calculation graph.
 package main
 
@@ -242,16 +243,23 @@ func universePolicy() *Universe {
 			V("a", wep("cali1", lbl("role", "web", "app", "a"), []string{"prof1"}, []string{"10.0.0.1/32"}, port("http", "tcp", 80), port("dns", "udp", 53))),
 			V("b", wep("cali1", lbl("role", "db"), []string{"prof1", "prof2"}, []string{"10.0.0.1/32", "10.0.0.2/32"}, port("http", "tcp", 8080))),
 			V("c", wep("cali1", lbl(), []string{"prof2"}, []string{"10.0.0.9/32"})),
+			// as "a" with a profile only appended (same own labels): prof2's labels are newly inherited
+			V("a2", wep("cali1", lbl("role", "web", "app", "a"), []string{"prof1", "prof2"}, []string{"10.0.0.1/32"}, port("http", "tcp", 80), port("dns", "udp", 53))),
 			Bad("bad", wep("", lbl("role", "web", "app", "a"), []string{"prof1"}, []string{"10.0.0.1/32"})),
+			// fails *schema* validation only (named port number 0), passes the Felix-specific checks
+			Bad("bad2", wep("cali1", lbl("role", "web", "app", "a"), []string{"prof1"}, []string{"10.0.0.1/32"}, port("odd", "tcp", 0))),
 		}},
 		Key{ID: "wepL2", Kind: "wep", Key: wepKey(localHost, "wl2"), Variants: []Variant{
 			V("a", wep("cali2", lbl("role", "web"), []string{"prof2"}, []string{"10.0.0.2/32"}, port("http", "tcp", 8080))),
 			V("b", wep("cali2", lbl("role", "db", "app", "a"), []string{"profmissing", "prof1"}, []string{"10.0.0.3/32"}, port("http", "udp", 80))),
 			Bad("bad", wep("", lbl("role", "web"), []string{"prof2"}, []string{"10.0.0.2/32"})),
+			// fails *schema* validation only (named-port protocol that is not tcp/udp/sctp; the port name is used by no rule)
+			Bad("bad2", wep("cali2", lbl("role", "web"), []string{"prof2"}, []string{"10.0.0.2/32"}, port("odd", "icmp", 7))),
 		}},
 		Key{ID: "wepR1", Kind: "wep", Key: wepKey(remote1, "wl1"), Variants: []Variant{
 			V("a", wep("cali3", lbl("role", "web"), []string{"prof1"}, []string{"10.0.1.1/32"}, port("http", "tcp", 80))),
 			V("b", wep("cali3", lbl("role", "db"), []string{"prof2"}, []string{"10.0.0.1/32"}, port("http", "tcp", 80), port("http", "udp", 81))),
+			Bad("bad2", wep("cali3", lbl("role", "web"), []string{"prof1"}, []string{"10.0.1.1/32"}, port("odd", "tcp", 0))),
 		}},
 		Key{ID: "hepL", Kind: "hep", Key: model.HostEndpointKey{Hostname: localHost, EndpointID: "eth0"}, Variants: []Variant{
 			V("a", hep("eth0", lbl("role", "host"), []string{"prof1"}, []string{"192.168.0.1"})),
@@ -308,7 +316,7 @@ func universePolicy() *Universe {
 			V("b", &model.NetworkSet{Nets: nets("12.0.0.0/16", "13.0.0.0/8"), Labels: lbl("role", "db"), ProfileIDs: []string{"prof2"}}),
 		}},
 	)
-	u.Groups = [][]string{{"polA", "wepL1"}, {"polC", "wepL1", "polA"}, {"pr-prof1", "wepL1"}, {"pr-prof2", "wepL2"}, {"polB", "hepL"}, {"pl-prof1", "polA", "wepL1"}, {"tier-tier1", "polB", "wepL1"}, {"ns1", "polA", "wepL1"}, {"polD", "wepL1"}, {"pr-prof1", "pr-prof2", "wepL1"}}
+	u.Groups = [][]string{{"polA", "wepL1"}, {"polC", "wepL1", "polA"}, {"pr-prof1", "wepL1"}, {"pr-prof2", "wepL2"}, {"polB", "hepL"}, {"pl-prof1", "polA", "wepL1"}, {"tier-tier1", "polB", "wepL1"}, {"ns1", "polA", "wepL1"}, {"polD", "wepL1"}, {"pr-prof1", "pr-prof2", "wepL1"}, {"polB", "wepL1"}, {"polB", "wepL1", "pl-prof2"}}
 	return u
 }
 
@@ -328,11 +336,14 @@ func universeOrder() *Universe {
 	u.Keys = append(u.Keys,
 		Key{ID: "wepL1", Kind: "wep", Key: wepKey(localHost, "wl1"), Variants: []Variant{
 			V("a", wep("cali1", lbl("role", "web"), nil, []string{"10.0.0.1/32"})),
+			V("a1", wep("cali1", lbl("role", "web"), []string{"prof1"}, []string{"10.0.0.1/32"})), // "a" + an appended profile
 			V("b", wep("cali1", lbl("role", "db"), []string{"prof1"}, []string{"10.0.0.1/32"})),
 			Bad("bad", wep("", lbl("role", "web"), nil, []string{"10.0.0.1/32"})),
+			Bad("bad2", wep("cali1", lbl("role", "web"), nil, []string{"10.0.0.1/32"}, port("odd", "tcp", 0))),
 		}},
 		Key{ID: "hepL", Kind: "hep", Key: model.HostEndpointKey{Hostname: localHost, EndpointID: "eth0"}, Variants: []Variant{
 			V("a", hep("eth0", lbl("role", "web"), nil, []string{"192.168.0.1"})),
+			V("a1", hep("eth0", lbl("role", "web"), []string{"prof1"}, []string{"192.168.0.1"})), // "a" + an appended profile
 			V("b", hep("eth0", lbl("role", "host"), []string{"prof1"}, []string{"192.168.0.1"})),
 		}},
 		Key{ID: "pl-prof1", Kind: "proflabels", Key: model.ResourceKey{Kind: v3.KindProfile, Name: "prof1"}, Variants: []Variant{
@@ -362,7 +373,7 @@ func universeOrder() *Universe {
 		tierKey("tier1", V("a", &model.Tier{Order: fp(10), DefaultAction: v3.Deny}), V("b", &model.Tier{Order: fp(100), DefaultAction: v3.Pass}), V("c", &model.Tier{DefaultAction: v3.Pass})),
 		tierKey("tier2", V("a", &model.Tier{Order: fp(10), DefaultAction: v3.Pass}), V("b", &model.Tier{DefaultAction: v3.Deny})),
 	)
-	u.Groups = [][]string{{"p1", "wepL1"}, {"p2", "hepL", "pl-prof1"}, {"p3", "tier-tier1", "wepL1"}, {"p4", "p3", "hepL"}, {"p1", "p2", "wepL1"}}
+	u.Groups = [][]string{{"p1", "wepL1"}, {"p2", "hepL", "pl-prof1"}, {"p3", "tier-tier1", "wepL1"}, {"p4", "p3", "hepL"}, {"p1", "p2", "wepL1"}, {"p2", "wepL1"}, {"p2", "hepL"}, {"p2", "wepL1", "pl-prof1"}}
 	return u
 }
 
@@ -383,6 +394,8 @@ func universeIPSets(nft bool) *Universe {
 			V("a", wep("cali3", lbl("role", "web"), []string{"prof1"}, []string{"10.0.0.1/32"}, port("http", "tcp", 80))),
 			V("b", wep("cali3", lbl("role", "db"), nil, []string{"10.0.0.2/32", "10.0.1.1/32"}, port("http", "sctp", 80))),
 			V("c", wep("cali3", lbl(), []string{"prof1"}, []string{"10.0.1.1/32"}, port("http", "tcp", 80))),
+			V("b2", wep("cali3", lbl("role", "db"), []string{"prof1"}, []string{"10.0.0.2/32", "10.0.1.1/32"}, port("http", "sctp", 80))), // "b" + an appended profile
+			Bad("bad2", wep("cali3", lbl("role", "web"), []string{"prof1"}, []string{"10.0.3.3/32"}, port("odd", "tcp", 0))),
 		}},
 		Key{ID: "wepR2", Kind: "wep", Key: wepKey(remote2, "wl1"), Variants: []Variant{
 			V("a", wep("cali4", lbl("role", "web"), nil, []string{"10.0.0.1/32", "10.0.1.1/32"}, port("http", "tcp", 80))),
@@ -407,7 +420,7 @@ func universeIPSets(nft bool) *Universe {
 				InboundRules:  []model.Rule{{Action: "allow", SrcSelector: "has(tenant)"}},
 				OutboundRules: []model.Rule{{Action: "allow", Protocol: protoP("udp"), DstSelector: "role == 'web'", DstPorts: []numorstring.Port{namedPort("http"), namedPort("dns")}}}}),
 			V("c", &model.Policy{Tier: "default", Order: fp(10), Selector: "all()",
-				InboundRules: []model.Rule{{Action: "allow", SrcSelector: "all()"}, {Action: "deny", NotSrcSelector: "role == 'web'"}},
+				InboundRules:  []model.Rule{{Action: "allow", SrcSelector: "all()"}, {Action: "deny", NotSrcSelector: "role == 'web'"}},
 				OutboundRules: []model.Rule{{Action: "allow", DstPorts: []numorstring.Port{namedPort("http")}, NotDstPorts: []numorstring.Port{namedPort("dns")}}}}),
 		}},
 		Key{ID: "polB", Kind: "policy", Key: gnpKey("pol-b"), Variants: []Variant{
